@@ -51,9 +51,9 @@ example : ([⟨["b.py"], 33188, 0, 0, "", "", 5, "Hb", 1⟩, ⟨["a", "x.py"], 3
 example : pathLe ["a", "x"] ["a-b", "x"] = true ∧ ("a-b/x" < "a/x") := by decide
 
 /-- **Listing order does not matter (sdist).** -/
-theorem build_perm_invariant_sdist (sde : Option String) (tarDir pd : String) (pn : Nat) (sel : PathKey → Bool)
+theorem build_perm_invariant_sdist (sde : Option String) (tarDir pd : String) (pn : Nat) (su : Option (String × Nat)) (sel : PathKey → Bool)
     (tree tree' : List FileEntry) (ht : tree'.Perm tree) (ndt : (tree.map (·.rel)).Nodup) :
-    describeSdist sde ⟨tarDir, selectSdist sel tree', pd, pn⟩ = describeSdist sde ⟨tarDir, selectSdist sel tree, pd, pn⟩ := by
+    describeSdist sde ⟨tarDir, selectSdist sel tree', pd, pn, su⟩ = describeSdist sde ⟨tarDir, selectSdist sel tree, pd, pn, su⟩ := by
   unfold describeSdist
   rw [sdistEntries_eq, sdistEntries_eq]
   simp only
@@ -81,12 +81,12 @@ example : ModeEquiv 0o100600 0o100664 ∧ ModeEquiv 0o100700 0o100775 ∧ ¬ Mod
   unfold ModeEquiv; decide
 
 /-- **Metadata does not matter (sdist)**: besides the above, uid/gid/uname/gname never reach the description. -/
-theorem build_meta_invariant_sdist (sde : Option String) (tarDir pd : String) (pn : Nat) (sel : PathKey → Bool)
+theorem build_meta_invariant_sdist (sde : Option String) (tarDir pd : String) (pn : Nat) (su : Option (String × Nat)) (sel : PathKey → Bool)
     (tree : List FileEntry) (g : FileEntry → FileEntry)
     (hg : ∀ f, (g f).rel = f.rel ∧ (g f).digest = f.digest ∧ (g f).size = f.size ∧ ModeEquiv (g f).stMode f.stMode) :
-    describeSdist sde ⟨tarDir, selectSdist sel (tree.map g), pd, pn⟩ =
-    describeSdist sde ⟨tarDir, selectSdist sel tree, pd, pn⟩ :=
-  sdist_files_congr sde tarDir pd pn _ _ (selectSdist_map sde tarDir sel tree g hg)
+    describeSdist sde ⟨tarDir, selectSdist sel (tree.map g), pd, pn, su⟩ =
+    describeSdist sde ⟨tarDir, selectSdist sel tree, pd, pn, su⟩ :=
+  sdist_files_congr sde tarDir pd pn su _ _ (selectSdist_map sde tarDir sel tree g hg)
 
 /-- every sdist header is scrubbed: owner 0/0, empty names, mode 0644/0755 -/
 theorem sdist_scrubbed (sde : Option String) (p : SdistPlan) :
@@ -95,9 +95,12 @@ theorem sdist_scrubbed (sde : Option String) (p : SdistPlan) :
   intro e he
   unfold describeSdist at he
   simp only [sdistEntries_eq, List.mem_append, List.mem_map, List.mem_singleton] at he
-  rcases he with ⟨f, _, rfl⟩ | rfl
+  rcases he with (⟨f, _, rfl⟩ | hs) | rfl
   · refine ⟨rfl, rfl, rfl, rfl, ?_⟩
     have := low9_cases (f.mode % 512); rw [← norm_mod] at this; exact this
+  · obtain ⟨d, n, rfl⟩ := mem_setupEntry _ _ _ _ hs
+    refine ⟨rfl, rfl, rfl, rfl, ?_⟩
+    left; simp only [cleanTarinfo, freshTarInfo]; decide
   · refine ⟨rfl, rfl, rfl, rfl, ?_⟩
     left; simp only [cleanTarinfo, freshTarInfo]; decide
 
@@ -160,7 +163,10 @@ theorem sdist_time (sde : Option String) (p : SdistPlan) :
   · intro e he
     unfold describeSdist at he
     simp only [sdistEntries_eq, List.mem_append, List.mem_map, List.mem_singleton] at he
-    rcases he with ⟨f, _, rfl⟩ | rfl <;> rfl
+    rcases he with (⟨f, _, rfl⟩ | hs) | rfl
+    · rfl
+    · obtain ⟨d, n, rfl⟩ := mem_setupEntry _ _ _ _ hs; rfl
+    · rfl
   · intro s hs
     unfold archiveMtime
     by_cases he : s.isEmpty
@@ -206,10 +212,10 @@ theorem rebuild_idempotent_partial (H : String → String) (sde : Option String)
   rw [this]
 
 /-- the same for the sdist -/
-theorem rebuild_idempotent_sdist_partial (sde : Option String) (tarDir pd : String) (pn : Nat) (sel : PathKey → Bool)
+theorem rebuild_idempotent_sdist_partial (sde : Option String) (tarDir pd : String) (pn : Nat) (su : Option (String × Nat)) (sel : PathKey → Bool)
     (tree extra : List FileEntry) (hx : ∀ f ∈ extra, sel f.rel = false) :
-    describeSdist sde ⟨tarDir, selectSdist sel (tree ++ extra), pd, pn⟩ =
-    describeSdist sde ⟨tarDir, selectSdist sel tree, pd, pn⟩ := by
+    describeSdist sde ⟨tarDir, selectSdist sel (tree ++ extra), pd, pn, su⟩ =
+    describeSdist sde ⟨tarDir, selectSdist sel tree, pd, pn, su⟩ := by
   have : selectSdist sel (tree ++ extra) = selectSdist sel tree := by
     unfold selectSdist
     rw [List.filter_append]
@@ -217,5 +223,19 @@ theorem rebuild_idempotent_sdist_partial (sde : Option String) (tarDir pd : Stri
       rw [List.filter_eq_nil_iff]; intro f hf; simp [hx f hf]
     rw [this, List.append_nil]
   rw [this]
+
+/-- **The generated setup.py does not depend on the listing order.**  `packages` and `package_data` computed by
+`SdistBuilder.find_packages` are the same for every order in which `os.walk` reports the directories below the package
+(any permutation `walk'` of `walk`): both are sorted before they are printed, and `find_nearest_pkg` only asks about
+ancestors.  (`Gen.sdistPackagesSorted` / `Gen.sdistPackageDataSorted` are regenerated from the source: dropping either
+`sorted(...)` breaks this proof.)  Model assumption: a top-down walk has seen every ancestor of the current directory,
+so "sub-packages seen so far" = "sub-packages" for ancestor queries. -/
+theorem setup_py_perm_invariant (pkgName : String) (walk walk' : List WalkDir) (h : walk'.Perm walk) :
+    setupPackages pkgName walk' = setupPackages pkgName walk ∧
+    setupPackageData pkgName walk' = setupPackageData pkgName walk :=
+  ⟨setupPackages_perm pkgName walk walk' h, setupPackageData_perm pkgName walk walk' h⟩
+
+example : ([⟨["locale"], [⟨"de.mo", false, false⟩]⟩, ⟨["assets"], [⟨"a.png", false, false⟩]⟩] : List WalkDir).Perm
+    [⟨["assets"], [⟨"a.png", false, false⟩]⟩, ⟨["locale"], [⟨"de.mo", false, false⟩]⟩] := List.Perm.swap _ _ _
 
 end Poetry.C08
